@@ -148,6 +148,27 @@ func checkPlacement(t failer, what string, asg map[models.ShardID][]models.NodeI
 		t.Fatalf("%s: first replicas not round-robin: per-node counts %v over nodes %v differ by %d (shards %d..%d): %s",
 			what, first, nodes, hi-lo, from, to-1, fmtAssignment(asg))
 	}
+	// Documented goal 1 of ShardAssignment ("spread the replicas evenly among storage nodes",
+	// shard_assign.go; the example table there): the remaining replicas follow the first one
+	// with a shift that changes only from one round over the node list to the next, so within
+	// one complete round (shard ids k*n .. k*n+n-1 handed out by this call) every replica
+	// position visits every node once: every node hosts exactly rf shards of the round.
+	// Partial rounds at the beginning / end of a call are not judged.
+	n := len(nodes)
+	for k := (from + n - 1) / n; (k+1)*n <= to; k++ {
+		hosted := make(map[models.NodeID]int, n)
+		for id := k * n; id < (k+1)*n; id++ {
+			for _, r := range asg[models.ShardID(id)] {
+				hosted[r]++
+			}
+		}
+		for _, nd := range nodes {
+			if hosted[nd] != rf {
+				t.Fatalf("%s: replicas not spread evenly: of the round of shards %d..%d node %d hosts %d, every node must host exactly rf=%d (per node %v): %s",
+					what, k*n, (k+1)*n-1, nd, hosted[nd], rf, hosted, fmtAssignment(asg))
+			}
+		}
+	}
 }
 
 // ---- generators -----------------------------------------------------------------------------
